@@ -4,7 +4,7 @@ from .. import ndevhist, core, machist, macstage
 
 ID = "C05"
 THEOREMS = ["C05_first_downlink", "C05_counter_rule", "C05_never_backwards", "C05_no_replay",
-            "C05_rejects_everything_else", "C05_accept_effects", "C05_nb_downlinks_strictly_increase", "C05_inc_from_example"]
+            "C05_rejects_everything_else", "C05_accept_effects", "C05_nb_downlinks_strictly_increase", "C05_async_downlinks_strictly_increase", "C05_inc_from_example"]
 KINDS = ["downlink", "acted upon", "oversized frame was accepted"]
 
 
